@@ -2313,7 +2313,7 @@ protected:
 		clear();
 		if (0 == rhs) return *this;
 		bool s = (rhs < 0);
-		uint64_t raw = static_cast<uint64_t>(s ? -rhs : rhs);
+		uint64_t raw = s ? (0ull - static_cast<uint64_t>(rhs)) : static_cast<uint64_t>(rhs); // -rhs is undefined for the most negative value
 
 		int msb = static_cast<int>(find_msb(raw)) - 1; // msb > 0 due to zero test above 
 		int exponent = msb;
